@@ -1041,12 +1041,8 @@ struct Digit {
                 if (power_increased) {
                     zeros = SizeT(number_length - fraction_length);
                 } else {
-                    const SizeT rem    = (index - started_at);
-                    const SizeT needed = SizeT(number_length - calculated_digits);
-
-                    if (rem > needed) {
-                        zeros = (rem - needed);
-                    }
+                    // Only the fraction may lose its trailing zeros: give back those of the integer part.
+                    zeros = SizeT(index - dot_index);
                 }
 
                 while (zeros != 0) {
@@ -1068,7 +1064,7 @@ struct Digit {
 
     template <bool Fixed_T, typename Stream_T>
     static void formatStringNumberFixed(Stream_T &stream, const SizeT started_at, const SizeT32 precision,
-                                        const SizeT32 calculated_digits, const SizeT32 fraction_length,
+                                        const SizeT32 /* calculated_digits */, const SizeT32 fraction_length,
                                         const bool round_up) {
         using Char_T              = typename Stream_T::CharType;
         Char_T     *storage       = stream.Storage();
@@ -1123,12 +1119,8 @@ struct Digit {
                     if (power_increased) {
                         zeros = SizeT(number_length - fraction_length);
                     } else {
-                        const SizeT rem    = (index - started_at);
-                        const SizeT needed = SizeT(number_length - calculated_digits);
-
-                        if (rem > needed) {
-                            zeros = (rem - needed);
-                        }
+                        // Only the fraction may lose its trailing zeros: give back those of the integer part.
+                        zeros = SizeT(index - dot_index);
                     }
 
                     while (zeros != 0) {
